@@ -1,42 +1,34 @@
 import Model.Retrieve
+import Proofs.RetrieveEnd
+import Proofs.RetrieveAdmit
 
 /-! # C09 — DA scanning never skips a height, retries on failure, survives any blob
-(first theorems: cursor discipline of the scan loop; classification is a total function of the bytes by
-construction — `Retrieve.classify` is a total Lean function over `Bytes`) -/
+
+All theorems are about `Model/Retrieve.lean` (`scan` = `RetrieveLoop`, `processNext` =
+`processNextDAHeaderAndData`, `chunks` = the id batching of `types.RetrieveWithHelpers`, `handleBlobs` /
+`classify` = `handlePotentialHeader` / `handlePotentialData`), the definitions the driver `drv_C09` executes and
+the differential check compares with the real `RetrieveLoop` goroutine.  They quantify over every DA content
+(`DAView.placed`: any bytes, any number of blobs per height, any oracle answers), every script of fetch
+outcomes per height and every start height (`n.daHeight`).  Helper lemmas: `Proofs/Retrieve*.lean`.
+
+Vocabulary defined in `Proofs/`: `Fetch.isRetry len f` (an attempt that failed and is retried: `.errIds`, or
+`.errGet c` for a chunk that exists), `Fetch.isPass len f` (`.ok`, `.notFound`, or `.errGet c` beyond the last
+chunk), `outcomeAt outs j` (what attempt `j` sees: the scripted outcome, `.ok` once the script is exhausted),
+`eventOf` / `hMarkOf` / `dMarkOf` (what one blob contributes to the hand-off), `accepting`.
+
+(5) *Totality is by construction*: `classify`, `handleBlobs`, `processNext`, `scan` are total Lean functions
+defined by structural recursion over the bytes / the fuel; no input can make them diverge or fail.  That the
+real decoder never panics is the fuzz stream of the check (exploration), not a theorem. -/
 namespace Spec.C09
 open Wire Chain Retrieve
 
+/-! ## first theorems (kept) -/
+
 theorem handleBlobs_cursor (p : Bytes) (n : RNode) (da : Nat) (bs : List (Bytes × Oracle)) (evs : List Event) :
-    (handleBlobs p n da bs evs).1.daHeight = n.daHeight := by
-  induction bs generalizing n evs with
-  | nil => rfl
-  | cons b rest ih =>
-    obtain ⟨b, o⟩ := b
-    unfold handleBlobs
-    split
-    · rw [ih]
-    · rw [ih]
-    · rw [ih]
+    (handleBlobs p n da bs evs).1.daHeight = n.daHeight := handleBlobs_daHeight p n da bs evs
 
 theorem processNext_cursor (p : Bytes) (n : RNode) (bs : List (Bytes × Oracle)) (fuel : Nat) (outs : List Fetch) (used : Nat) :
-    (processNext p n bs fuel outs used).1.daHeight = n.daHeight := by
-  induction fuel generalizing outs used with
-  | zero => rfl
-  | succ f ih =>
-    unfold processNext
-    simp only
-    split
-    · split
-      · rfl
-      · exact handleBlobs_cursor _ _ _ _ _
-    · rfl
-    · rfl
-    · split
-      · exact ih _ _
-      · split
-        · rfl
-        · exact handleBlobs_cursor _ _ _ _ _
-    · exact ih _ _
+    (processNext p n bs fuel outs used).1.daHeight = n.daHeight := processNext_daHeight p n bs fuel outs used
 
 /-- a height that is "from the future" is never passed: the attempt fails at once and the node is unchanged -/
 theorem future_not_passed (p : Bytes) (n : RNode) (bs : List (Bytes × Oracle)) (fuel : Nat) (rest : List Fetch) (used : Nat) :
@@ -61,35 +53,335 @@ theorem scan_cursor_monotone (p : Bytes) (fuel : Nat) (n : RNode) (v : DAView) (
 theorem empty_blob_ignored (o : Oracle) (p : Bytes) : (match classify o p [] with | .empty => true | _ => false) = true := by
   simp [classify]
 
-
 /-- **No blob brings the scan down**: handling any list of blobs (any bytes, any oracle answers) never sets the
 `crashed` flag of the model — the branch of `handlePotentialData` that dereferenced missing metadata is gone
 (/repo 76641b6) and the Lean classifier is total. -/
 theorem no_blob_crashes_the_scan (p : Bytes) (n : RNode) (da : Nat) (bs : List (Bytes × Oracle)) (evs : List Event) :
-    (handleBlobs p n da bs evs).1.crashed = n.crashed := by
-  induction bs generalizing n evs with
-  | nil => rfl
-  | cons b rest ih =>
-    obtain ⟨b, o⟩ := b
-    unfold handleBlobs
-    split <;> rw [ih]
+    (handleBlobs p n da bs evs).1.crashed = n.crashed := (handleBlobs_frame p n da bs evs).2.2
 
 /-- signed data is handed to sync only with its metadata (what the sync loop needs to place it) -/
 theorem accepted_data_has_metadata (o : Oracle) (p bs : Bytes) (sd : SignedData)
-    (h : classifyData o p bs = .dataAccepted sd) : sd.data.metadata.isSome = true := by
-  unfold classifyData at h
-  split at h
-  · simp at h
-  · rename_i x _
-    split at h
-    · simp at h
-    · split at h
-      · simp at h
-      · rename_i hm
-        split at h
-        · have : x = sd := by simpa using h
-          subst this
-          cases hx : x.data.metadata <;> simp_all
-        · simp at h
+    (h : classifyData o p bs = .dataAccepted sd) : sd.data.metadata.isSome = true :=
+  ((classifyData_accepted_iff o p bs sd).1 h).2.2.1
+
+/-! ## demo objects for the non-vacuity examples -/
+
+def okO : Oracle := { keyOk := true, hdrSigOk := true, dataSigOk := true }
+def demoHdr : SignedHeader :=
+  { header := { height := 3, proposerAddress := [7, 7], chainId := "c" }, signature := [1],
+    signer := { address := [7, 7], pubKey := [9] } }
+def demoDat : SignedData :=
+  { data := { metadata := some { chainId := "c", height := 3 }, txs := [[1]] }, signature := [2],
+    signer := { address := [7, 7], pubKey := [9] } }
+/-- heights 1 and 2 hold blobs (a header + junk, then signed data), 3 is empty; the listing of height 1 fails
+once, a chunk fetch at height 2 fails once; height 4 has not been produced yet -/
+def demoView : DAView :=
+  { placed := [(1, demoHdr.encode, okO), (1, [0xff, 0xff], okO), (2, demoDat.encode, okO)],
+    scripts := [(1, [.errIds, .ok]), (2, [.errGet 0])], top := 4 }
+
+/-! ## (1) heights are examined consecutively, none skipped; a failed height is retried -/
+
+/-- **Never skips.** For every DA content, every fetch-outcome script, every start height and every number of
+loop rounds: the heights the scan examined are `start, start+1, start+2, …`; every entry except possibly the
+last was passed; the cursor ends one past the last examined height if that one was passed, else AT the last
+examined height (it will be examined again); at most one height per round. -/
+theorem scan_never_skips (p : Bytes) (fuel : Nat) (n : RNode) (v : DAView) :
+    let tr := (scan p fuel n v [] []).2.2.2
+    (∀ (i : Nat) (h : i < tr.length), (tr[i]).1 = n.daHeight + i) ∧
+    (∀ (i : Nat) (h : i + 1 < tr.length), (tr[i]'(by omega)).2.2 = true) ∧
+    (scan p fuel n v [] []).1.daHeight =
+      (match tr.getLast? with
+       | none => n.daHeight
+       | some e => if e.2.2 then e.1 + 1 else e.1) ∧
+    tr.length ≤ fuel := by
+  obtain ⟨new, h1, h2, h3⟩ := scan_trace_spec p fuel n v [] []
+  simp only [List.nil_append] at h1
+  subst h1
+  exact ⟨h3.consecutive, h3.passed_but_last, h3.cursor, h2⟩
+example : (scan [7, 7] 9 { daHeight := 1 } demoView [] []).2.2.2 = [(1, 2, true), (2, 2, true), (3, 1, true), (4, 1, false)] ∧
+    (scan [7, 7] 9 { daHeight := 1 } demoView [] []).1.daHeight = 4 := by decide +kernel
+
+/-- the trace and the events of a scan are appended to what was there; node and DA view do not depend on the
+accumulators (so the statements about `scan … [] []` are about every call) -/
+theorem scan_appends (p : Bytes) (fuel : Nat) (n : RNode) (v : DAView) (evs : List Event) (tr : List (Nat × Nat × Bool)) :
+    (scan p fuel n v evs tr).2.2.2 = tr ++ (scan p fuel n v [] []).2.2.2 ∧
+    (scan p fuel n v evs tr).2.2.1 = evs ++ (scan p fuel n v [] []).2.2.1 ∧
+    (scan p fuel n v evs tr).1 = (scan p fuel n v [] []).1 ∧
+    (scan p fuel n v evs tr).2.1 = (scan p fuel n v [] []).2.1 := scan_trace_acc p fuel n v evs tr
+example : (scan [7, 7] 2 { daHeight := 1 } demoView [] [(0, 1, true)]).2.2.2 = [(0, 1, true), (1, 2, true), (2, 2, true)] := by
+  decide +kernel
+
+/-- **Retries the same height.** If a scan stopped on a height it could not pass, the cursor stays there and
+the next scan — whenever it runs, whatever the DA layer holds by then — examines that same height first. -/
+theorem failed_height_examined_again (p : Bytes) (fuel : Nat) (n : RNode) (v : DAView) (h k : Nat)
+    (hl : (scan p fuel n v [] []).2.2.2.getLast? = some (h, k, false)) (fuel' : Nat) (v' : DAView) :
+    (scan p fuel n v [] []).1.daHeight = h ∧
+    ((scan p (fuel' + 1) (scan p fuel n v [] []).1 v' [] []).2.2.2.head?).map (·.1) = some h := by
+  have hc := (scan_never_skips p fuel n v).2.2.1
+  simp only [hl] at hc
+  have hc' : (scan p fuel n v [] []).1.daHeight = h := by simpa using hc
+  exact ⟨hc', by rw [scan_head, hc']⟩
+example : (scan [7, 7] 9 { daHeight := 1 } demoView [] []).2.2.2.getLast? = some (4, 1, false) := by decide +kernel
+
+/-! ## (2) a height is passed only after a successful fetch or a confirmed empty height -/
+
+/-- **Only failures ⇒ not passed.** If every one of the attempts sees a listing error or an error on a chunk
+that exists, the height is not passed, the node is unchanged and nothing is handed to sync. -/
+theorem not_passed_after_failures_only (p : Bytes) (n : RNode) (blobs : List (Bytes × Oracle)) (fuel : Nat)
+    (outs : List Fetch) (used : Nat)
+    (h : ∀ j, j < fuel → (outcomeAt outs j).isRetry blobs.length = true) :
+    processNext p n blobs fuel outs used = (n, [], false, used + fuel) :=
+  processNext_all_retry p n blobs fuel outs used h
+example : processNext [7, 7] {} [([1], okO)] dAFetcherRetries (List.replicate 10 .errIds) 0 = (({} : RNode), [], false, 10) ∧
+    (∀ j, j < dAFetcherRetries → (outcomeAt (List.replicate 10 Fetch.errIds) j).isRetry 1 = true) :=
+  ⟨not_passed_after_failures_only _ _ _ _ _ _ (by decide), by decide⟩
+
+/-- **Future ⇒ not passed**, also after any number of failed attempts: the first non-retried outcome being
+"from the future" ends the round at once with the node unchanged. -/
+theorem not_passed_when_future (p : Bytes) (n : RNode) (blobs : List (Bytes × Oracle)) (fuel : Nat)
+    (outs : List Fetch) (used i : Nat) (hi : i < fuel)
+    (hret : ∀ j, j < i → (outcomeAt outs j).isRetry blobs.length = true)
+    (hfut : outcomeAt outs i = .future) :
+    processNext p n blobs fuel outs used = (n, [], false, used + i + 1) := by
+  rw [processNext_decisive p n blobs fuel outs used i hi hret (by rw [hfut]; rfl), hfut]
+  rfl
+example : processNext [7, 7] {} [([1], okO)] dAFetcherRetries [.errIds, .errGet 0, .future, .ok] 0 = (({} : RNode), [], false, 3) :=
+  not_passed_when_future _ _ _ _ _ _ 2 (by decide) (by decide) (by decide)
+
+/-- **Passed ⇒ some attempt succeeded.** A verdict `true` means that, after retried failures only, an attempt
+within the budget saw `.ok`, `.notFound`, or an `.errGet` for a chunk beyond the last one (an error that never
+fires); the attempts consumed are exactly those. -/
+theorem passed_only_after_success (p : Bytes) (n : RNode) (blobs : List (Bytes × Oracle)) (fuel : Nat)
+    (outs : List Fetch) (used : Nat) (hv : (processNext p n blobs fuel outs used).2.2.1 = true) :
+    ∃ i, i < fuel ∧ (∀ j, j < i → (outcomeAt outs j).isRetry blobs.length = true) ∧
+      (outcomeAt outs i).isPass blobs.length = true ∧
+      (processNext p n blobs fuel outs used).2.2.2 = used + i + 1 := by
+  rcases retry_or_decisive blobs.length outs fuel with h | ⟨i, hi, h1, h2⟩
+  · rw [processNext_all_retry p n blobs fuel outs used h] at hv; simp at hv
+  · refine ⟨i, hi, h1, ?_, ?_⟩
+    · apply isPass_of_not_retry_not_future h2
+      intro hf
+      rw [not_passed_when_future p n blobs fuel outs used i hi h1 hf] at hv
+      simp at hv
+    · rw [processNext_decisive p n blobs fuel outs used i hi h1 h2]
+      cases outcomeAt outs i <;> rfl
+example : (processNext [7, 7] {} [([1], okO)] dAFetcherRetries [.errIds, .errGet 0, .ok] 0).2.2.1 = true := by
+  decide +kernel
+
+/-- **The scan stops at a height it cannot pass** (the statement of (2) at the level of the loop): if the
+outcomes the 10 attempts at the cursor will see are all failures, or the first one that is not a failure is
+"from the future", the scan examines that height only, reports it as not passed, emits nothing and leaves the
+node — cursor included — unchanged. -/
+theorem scan_stops_at_failing_height (p : Bytes) (fuel : Nat) (n : RNode) (v : DAView)
+    (h : (∀ j, j < dAFetcherRetries →
+            (outcomeAt (v.effective n.daHeight) j).isRetry (v.blobsAt n.daHeight).length = true) ∨
+         (∃ i, i < dAFetcherRetries ∧
+            (∀ j, j < i → (outcomeAt (v.effective n.daHeight) j).isRetry (v.blobsAt n.daHeight).length = true) ∧
+            outcomeAt (v.effective n.daHeight) i = .future)) :
+    (scan p (fuel + 1) n v [] []).1 = n ∧ (scan p (fuel + 1) n v [] []).2.2.1 = [] ∧
+    ∃ k, (scan p (fuel + 1) n v [] []).2.2.2 = [(n.daHeight, k, false)] := by
+  have hv : (processNext p n (v.blobsAt n.daHeight) dAFetcherRetries (v.effective n.daHeight) 0).2.2.1 = false := by
+    rcases h with h | ⟨i, hi, h1, h2⟩
+    · rw [not_passed_after_failures_only p n _ _ _ _ h]
+    · rw [not_passed_when_future p n _ _ _ _ i hi h1 h2]
+  obtain ⟨a, b, c⟩ := scan_stops p fuel n v hv
+  exact ⟨a, b, _, c⟩
+example : (scan [7, 7] 3 { daHeight := 4 } demoView [] []).2.2.2 = [(4, 1, false)] ∧
+    outcomeAt (demoView.effective 4) 0 = .future := by decide +kernel
+
+/-- a passed height whose attempts never answered "not found" was handled by `handleBlobs` at that DA height:
+node and events are exactly its result -/
+theorem passed_height_was_handed_off (p : Bytes) (n : RNode) (blobs : List (Bytes × Oracle)) (fuel : Nat)
+    (outs : List Fetch) (used : Nat)
+    (hv : (processNext p n blobs fuel outs used).2.2.1 = true) (hnf : Fetch.notFound ∉ outs) :
+    (processNext p n blobs fuel outs used).1 = (handleBlobs p n n.daHeight blobs []).1 ∧
+    (processNext p n blobs fuel outs used).2.1 = (handleBlobs p n n.daHeight blobs []).2 :=
+  processNext_passed_eq p n blobs fuel outs used hv hnf
+example : (processNext [7, 7] { daHeight := 5 } [(demoHdr.encode, okO)] dAFetcherRetries [.errIds] 0).1.hMarks =
+    [(demoHdr.header.hash, 5)] := by
+  rw [(passed_height_was_handed_off _ _ _ _ _ _ (by decide +kernel) (by decide)).1]
+  decide +kernel
+
+/-! ## (3) every id is fetched, in order, whatever their number; at most 100 per request -/
+
+/-- **All ids, in order.** -/
+theorem all_ids_fetched_in_order {α : Type} (ids : List α) (fuel : Nat) (h : ids.length ≤ fuel) :
+    (chunks 100 fuel ids).flatten = ids := chunks_flatten 100 (by decide) fuel ids h
+example : chunks 100 250 (List.range 250) = [List.range 100, (List.range 200).drop 100, (List.range 250).drop 200] := by
+  decide +kernel
+
+/-- every request carries between 1 and 100 ids, and every request but the last exactly 100 -/
+theorem chunk_sizes {α : Type} (ids : List α) (fuel : Nat) :
+    (∀ c ∈ chunks 100 fuel ids, c.length ≤ 100 ∧ c ≠ []) ∧
+    (∀ (i : Nat) (h : i + 1 < (chunks 100 fuel ids).length), ((chunks 100 fuel ids)[i]'(by omega)).length = 100) :=
+  ⟨fun c hc => ⟨chunks_length_le 100 fuel ids c hc, chunks_ne_nil 100 (by decide) fuel ids c hc⟩,
+   chunks_full_but_last 100 fuel ids⟩
+example : (chunks 100 250 (List.range 250)).map List.length = [100, 100, 50] := by decide +kernel
+
+/-! ## (4) the hand-off to sync -/
+
+/-- **Exact hand-off.** For every blob list of a DA height: the events appended are exactly one per blob
+classified `.hdrAccepted` whose header hash is not in `seenH` and one per blob classified `.dataAccepted` whose
+commitment is not in `seenD` (`eventOf`), in blob order, each carrying that DA height; every accepted item
+(seen or not) gets its DA-inclusion mark with that height (`hMarkOf`, `dMarkOf`; newest first); and nothing
+else changes — not `seenH`, `seenD`, the cursor or the crash flag. -/
+theorem handoff_exact (p : Bytes) (n : RNode) (da : Nat) (bs : List (Bytes × Oracle)) (evs : List Event) :
+    handleBlobs p n da bs evs =
+      ({ n with hMarks := (bs.filterMap (hMarkOf p da)).reverse ++ n.hMarks,
+                dMarks := (bs.filterMap (dMarkOf p da)).reverse ++ n.dMarks },
+       evs ++ bs.filterMap (eventOf p n.seenH n.seenD da)) := handleBlobs_eq p da bs n evs
+example : (handleBlobs [7, 7] {} 5 [(demoHdr.encode, okO), ([0xff], okO), (demoDat.encode, okO)] []).1.hMarks =
+      [(demoHdr.header.hash, 5)] ∧
+    (handleBlobs [7, 7] {} 5 [(demoHdr.encode, okO), ([0xff], okO), (demoDat.encode, okO)] []).1.dMarks =
+      [(demoDat.data.daCommitment, 5)] ∧
+    (handleBlobs [7, 7] {} 5 [(demoHdr.encode, okO), ([0xff], okO), (demoDat.encode, okO)] []).2.length = 2 := by
+  decide +kernel
+
+/-- what one blob contributes, spelled out (the definition of `eventOf`) -/
+theorem eventOf_spec (p : Bytes) (sH sD : List Bytes) (da : Nat) (b : Bytes) (o : Oracle) :
+    eventOf p sH sD da (b, o) =
+      match classify o p b with
+      | .hdrAccepted sh => if sh.header.hash ∈ sH then none else some (.hdr sh da)
+      | .dataAccepted sd => if sd.data.daCommitment ∈ sD then none else some (.dat sd da)
+      | _ => none := rfl
+
+theorem handoff_changes_only_marks (p : Bytes) (n : RNode) (da : Nat) (bs : List (Bytes × Oracle)) (evs : List Event) :
+    (handleBlobs p n da bs evs).1.seenH = n.seenH ∧ (handleBlobs p n da bs evs).1.seenD = n.seenD ∧
+    (handleBlobs p n da bs evs).1.daHeight = n.daHeight ∧ (handleBlobs p n da bs evs).1.crashed = n.crashed := by
+  rw [handoff_exact]; exact ⟨rfl, rfl, rfl, rfl⟩
+
+/-- the whole scan touches neither the seen-caches nor the crash flag, and never removes a mark -/
+theorem scan_changes_only_cursor_and_marks (p : Bytes) (fuel : Nat) (n : RNode) (v : DAView) (evs : List Event)
+    (tr : List (Nat × Nat × Bool)) :
+    (scan p fuel n v evs tr).1.seenH = n.seenH ∧ (scan p fuel n v evs tr).1.seenD = n.seenD ∧
+    (scan p fuel n v evs tr).1.crashed = n.crashed ∧
+    (∀ m ∈ n.hMarks, m ∈ (scan p fuel n v evs tr).1.hMarks) ∧
+    (∀ m ∈ n.dMarks, m ∈ (scan p fuel n v evs tr).1.dMarks) := by
+  obtain ⟨⟨a, b, c⟩, d, e⟩ := scan_frame p fuel n v evs tr
+  exact ⟨a, b, c, d, e⟩
+example : (scan [7, 7] 9 { daHeight := 1, seenH := [[1]], crashed := false } demoView [] []).1.seenH = [[1]] :=
+  (scan_changes_only_cursor_and_marks _ _ _ _ _ _).1
+
+/-! ## (6) every genuine item at a passed height reaches sync -/
+
+/-- a genuine header blob: it decodes (`proto.Unmarshal` + `FromProto`) to `sh`, `sh` passes
+`SignedHeader.ValidateBasic` (non-empty proposer address and signature, proposer address = signer address, the
+signature verifies) and names the genesis proposer -/
+def GenuineHeaderBlob (o : Oracle) (proposer bs : Bytes) (sh : SignedHeader) : Prop :=
+  headerStage o bs = .ok sh ∧ validateBasicWire o sh = true ∧ sh.header.proposerAddress = proposer
+
+/-- a genuine signed-data blob: it decodes to `sd`, carries transactions and metadata, is signed by a signer
+with the proposer's address, and is not at the same time a valid signed header (the header attempt comes first;
+a blob produced by `SignedData.encode` never is — `encoded_data_is_genuine`) -/
+def GenuineDataBlob (o : Oracle) (proposer bs : Bytes) (sd : SignedData) : Prop :=
+  SignedData.decode (fun _ => o.keyOk) bs = some sd ∧ sd.data.txs ≠ [] ∧ sd.data.metadata.isSome = true ∧
+  validSignedData o proposer sd = true ∧ ∀ sh, headerStage o bs = .ok sh → validateBasicWire o sh = false
+
+/-- **Completeness of the header classification** (and its converse: nothing else is accepted as a header) -/
+theorem genuine_header_accepted (o : Oracle) (proposer bs : Bytes) (sh : SignedHeader) :
+    GenuineHeaderBlob o proposer bs sh ↔ classify o proposer bs = .hdrAccepted sh :=
+  (classify_hdrAccepted_iff o proposer bs sh).symm
+
+/-- **Completeness of the data classification** (and its converse) -/
+theorem genuine_data_accepted (o : Oracle) (proposer bs : Bytes) (sd : SignedData) :
+    GenuineDataBlob o proposer bs sd ↔ classify o proposer bs = .dataAccepted sd := by
+  rw [classify_dataAccepted_iff, classifyData_accepted_iff]
+  constructor
+  · rintro ⟨h1, h2, h3, h4, h5⟩
+    refine ⟨?_, h5, headerStage_not_fromProtoErr_of_data o bs sd h1 h2, h1, h2, h3, h4⟩
+    intro he
+    subst he
+    simp [SignedData.decode, decFields, decFieldsAux, getMsg, getRep] at h1
+    have : sd.data = {} := by rw [← h1]
+    rw [this] at h2; exact h2 rfl
+  · rintro ⟨_, h5, _, h1, h2, h3, h4⟩
+    exact ⟨h1, h2, h3, h4, h5⟩
+
+/-- what the proposer's encoder produces is genuine: any well-formed (sizes in the Go types' ranges) signed
+header with a parsable key that passes the basic validation and names the proposer -/
+theorem encoded_header_is_genuine (o : Oracle) (proposer : Bytes) (sh : SignedHeader) (hw : sh.WF)
+    (hok : o.keyOk = true) (hv : validateBasicWire o sh = true) (hp : sh.header.proposerAddress = proposer) :
+    GenuineHeaderBlob o proposer sh.encode sh :=
+  (genuine_header_accepted _ _ _ _).2 (classify_encode_header o proposer sh hw hok hv hp)
+example : GenuineHeaderBlob okO [7, 7] demoHdr.encode demoHdr :=
+  encoded_header_is_genuine _ _ _ (by decide +kernel) rfl (by decide +kernel) rfl
+
+/-- likewise for signed data with transactions and metadata -/
+theorem encoded_data_is_genuine (o : Oracle) (proposer : Bytes) (sd : SignedData) (hw : sd.WF)
+    (hok : o.keyOk = true) (ht : sd.data.txs ≠ []) (hm : sd.data.metadata.isSome = true)
+    (hv : validSignedData o proposer sd = true) :
+    GenuineDataBlob o proposer sd.encode sd :=
+  (genuine_data_accepted _ _ _ _).2 (classify_encode_data o proposer sd hw hok ht hm hv)
+example : GenuineDataBlob okO [7, 7] demoDat.encode demoDat :=
+  encoded_data_is_genuine _ _ _ (by decide +kernel) rfl (by decide) rfl (by decide +kernel)
+
+/-- (4)+(6) for one height: a genuine header among the blobs is marked with the DA height and, unless already
+seen, handed to sync with that height -/
+theorem genuine_header_handed_off (p : Bytes) (n : RNode) (da : Nat) (bs : List (Bytes × Oracle)) (evs : List Event)
+    (b : Bytes) (o : Oracle) (sh : SignedHeader) (hb : (b, o) ∈ bs) (hg : GenuineHeaderBlob o p b sh) :
+    (sh.header.hash, da) ∈ (handleBlobs p n da bs evs).1.hMarks ∧
+    (sh.header.hash ∉ n.seenH → Event.hdr sh da ∈ (handleBlobs p n da bs evs).2) := by
+  have hc := (genuine_header_accepted _ _ _ _).1 hg
+  rw [handoff_exact]
+  refine ⟨?_, fun hns => ?_⟩
+  · exact List.mem_append.mpr (Or.inl (List.mem_reverse.mpr
+      (List.mem_filterMap.mpr ⟨(b, o), hb, by simp [hMarkOf, hc]⟩)))
+  · exact List.mem_append.mpr (Or.inr (List.mem_filterMap.mpr ⟨(b, o), hb, by simp [eventOf, hc, hns]⟩))
+
+theorem genuine_data_handed_off (p : Bytes) (n : RNode) (da : Nat) (bs : List (Bytes × Oracle)) (evs : List Event)
+    (b : Bytes) (o : Oracle) (sd : SignedData) (hb : (b, o) ∈ bs) (hg : GenuineDataBlob o p b sd) :
+    (sd.data.daCommitment, da) ∈ (handleBlobs p n da bs evs).1.dMarks ∧
+    (sd.data.daCommitment ∉ n.seenD → Event.dat sd da ∈ (handleBlobs p n da bs evs).2) := by
+  have hc := (genuine_data_accepted _ _ _ _).1 hg
+  rw [handoff_exact]
+  refine ⟨?_, fun hns => ?_⟩
+  · exact List.mem_append.mpr (Or.inl (List.mem_reverse.mpr
+      (List.mem_filterMap.mpr ⟨(b, o), hb, by simp [dMarkOf, hc]⟩)))
+  · exact List.mem_append.mpr (Or.inr (List.mem_filterMap.mpr ⟨(b, o), hb, by simp [eventOf, hc, hns]⟩))
+
+/-- **Every genuine header at a passed height reaches sync**: over a whole scan, for every height the trace
+reports as passed — provided the DA layer did not answer "not found" for a height that holds blobs — every
+genuine header blob placed at that height is marked DA-included at that height and, unless its hash was
+already seen, its event with that DA height is in the scan's output. -/
+theorem genuine_header_at_passed_height_reaches_sync (p : Bytes) (fuel : Nat) (n : RNode) (v : DAView)
+    (h k : Nat) (b : Bytes) (o : Oracle) (sh : SignedHeader)
+    (hpass : (h, k, true) ∈ (scan p fuel n v [] []).2.2.2) (hnf : Fetch.notFound ∉ v.scriptAt h)
+    (hb : (b, o) ∈ v.blobsAt h) (hg : GenuineHeaderBlob o p b sh) :
+    (sh.header.hash, h) ∈ (scan p fuel n v [] []).1.hMarks ∧
+    (sh.header.hash ∉ n.seenH → Event.hdr sh h ∈ (scan p fuel n v [] []).2.2.1) := by
+  have hc := (genuine_header_accepted _ _ _ _).1 hg
+  obtain ⟨e1, e2, _⟩ := scan_handoff p fuel n v h k n.seenH n.seenD rfl rfl hpass hnf
+  exact ⟨e2 _ (List.mem_filterMap.mpr ⟨(b, o), hb, by simp [hMarkOf, hc]⟩),
+    fun hns => e1 _ (List.mem_filterMap.mpr ⟨(b, o), hb, by simp [eventOf, hc, hns]⟩)⟩
+example : (demoHdr.header.hash, 1) ∈ (scan [7, 7] 9 { daHeight := 1 } demoView [] []).1.hMarks :=
+  (genuine_header_at_passed_height_reaches_sync [7, 7] 9 { daHeight := 1 } demoView 1 2 demoHdr.encode okO demoHdr
+    (by decide +kernel) (by decide) (by simp [demoView, DAView.blobsAt])
+    (encoded_header_is_genuine _ _ _ (by decide +kernel) rfl (by decide +kernel) rfl)).1
+
+/-- **Nothing else reaches sync**: every event a scan emits is the one event (`eventOf`) some blob placed at a
+height the trace reports as passed owes, and it carries that DA height. -/
+theorem only_owed_events_reach_sync (p : Bytes) (fuel : Nat) (n : RNode) (v : DAView) :
+    ∀ ev ∈ (scan p fuel n v [] []).2.2.1, ∃ h k, (h, k, true) ∈ (scan p fuel n v [] []).2.2.2 ∧
+      ev ∈ (v.blobsAt h).filterMap (eventOf p n.seenH n.seenD h) :=
+  scan_events_sound p fuel n v n.seenH n.seenD rfl rfl
+example : (scan [7, 7] 9 { daHeight := 1 } demoView [] []).2.2.1.length = 2 := by decide +kernel
+
+/-- **Every genuine signed-data blob at a passed height reaches sync** (same, keyed by the commitment; a data
+blob whose commitment is already in `seenD` — e.g. one repeating an earlier block's tx list — is only marked:
+the inherited exception recorded under C02) -/
+theorem genuine_data_at_passed_height_reaches_sync (p : Bytes) (fuel : Nat) (n : RNode) (v : DAView)
+    (h k : Nat) (b : Bytes) (o : Oracle) (sd : SignedData)
+    (hpass : (h, k, true) ∈ (scan p fuel n v [] []).2.2.2) (hnf : Fetch.notFound ∉ v.scriptAt h)
+    (hb : (b, o) ∈ v.blobsAt h) (hg : GenuineDataBlob o p b sd) :
+    (sd.data.daCommitment, h) ∈ (scan p fuel n v [] []).1.dMarks ∧
+    (sd.data.daCommitment ∉ n.seenD → Event.dat sd h ∈ (scan p fuel n v [] []).2.2.1) := by
+  have hc := (genuine_data_accepted _ _ _ _).1 hg
+  obtain ⟨e1, _, e3⟩ := scan_handoff p fuel n v h k n.seenH n.seenD rfl rfl hpass hnf
+  exact ⟨e3 _ (List.mem_filterMap.mpr ⟨(b, o), hb, by simp [dMarkOf, hc]⟩),
+    fun hns => e1 _ (List.mem_filterMap.mpr ⟨(b, o), hb, by simp [eventOf, hc, hns]⟩)⟩
+example : (demoDat.data.daCommitment, 2) ∈ (scan [7, 7] 9 { daHeight := 1 } demoView [] []).1.dMarks :=
+  (genuine_data_at_passed_height_reaches_sync [7, 7] 9 { daHeight := 1 } demoView 2 2 demoDat.encode okO demoDat
+    (by decide +kernel) (by decide) (by simp [demoView, DAView.blobsAt])
+    (encoded_data_is_genuine _ _ _ (by decide +kernel) rfl (by decide) rfl (by decide +kernel))).1
 
 end Spec.C09
